@@ -13,7 +13,8 @@ RULE = ("names = letter x every '#'/'b' string up to length k in all orders (qui
         "Hypothesis accidental strings up to length 60; ordered name pairs for is_enharmonic (k<=4 quick, k<=7 thorough); "
         "integers x accidental styles for int_to_note; malformed strings from Hypothesis text and a near-miss grammar. "
         "Non-trivial: a name with both signs among >=2 accidentals or |net accidentals| >= 7 (octave wrap); a pair of "
-        "different letters; an int outside 0..11 or an unknown style; a malformed string sharing a valid prefix.")
+        "different letters; an int outside 0..11 or an unknown style; a malformed string sharing a valid prefix."
+        ' Also: every letter with 1..72 sharps or flats (and one opposite accidental in the middle); a coverage-guided atheris campaign over name-like text with the same oracle.')
 ASSUMPTIONS = ["empty string is outside the domain (statement: non-empty)", "int_to_note is given ints only",
                "oracle: own letter/semitone arithmetic in vlib/ref/theory.py"]
 
